@@ -188,6 +188,7 @@ PROBES: Dict[str, tuple] = {
     'R141': ('import re\nclass M:\n    def __init__(self, roles):\n        self.roles = roles\n        self._re = re.compile("^({})$".format("|".join(roles)))\n    def __setstate__(self, state):\n        self.__dict__.update(state)\n        self._re = re.compile("|".join(self.roles))\n', 1),
     'R142': ('import itertools\ndef f(lines):\n    lines = iter(lines)\n    first = next(lines, None)\n    if isinstance(first, bytes):\n        raise TypeError()\n    return itertools.chain([first], lines)\n', 1),
     'R143': ('from itertools import groupby\ndef f(rel):\n    return {k: list(g) for k, g in groupby(rel, key=lambda t: t[0])}\n', 1),
+    'R145': ('def from_string(s):\n    _s = s.lstrip("~").lower()\n    return _s\n', 1),
     'R96': ('def f(a) -> str:\n    if a:\n        return "x"\n', 1),
 }
 
